@@ -165,7 +165,7 @@ theorem C06_load_disk_cleanup (D : Path) (s0 : FS) (ls : List LayerIn) (hD : s0.
 def mkFS (l : List (Path × Obj)) : FS := l.foldl (fun s x => s.put x.1 x.2) ⟨fun _ => none, []⟩
 def exD : Path := ["tmp", "img"]
 /-- an entry by the '/'-separated components of its name (`abs`: the name begins with "/") -/
-def ent (typ : Char) (name : List String) (cid : Nat := 1) (abs : Bool := false) : TarEntry := ⟨typ, abs, name, cid, false, [], ""⟩
+def ent (typ : Char) (name : List String) (cid : Nat := 1) (abs : Bool := false) : TarEntry := ⟨typ, abs, name, cid, false, [], "", 1⟩
 /-- sandbox: tmp/img (just made), victim/secret -/
 def exS0 : FS := mkFS [(["tmp"], .dir), (["tmp","img"], .dir), (["victim"], .dir), (["victim","secret"], .file 7)]
 /-- the same with a symbolic link `tmp/img/layer-0/k -> ../../../victim` already there -/
